@@ -45,6 +45,9 @@ def main(argv=None) -> int:
                 return 1
             print(f"replay: {key} no longer violated on the current tree")
             return 0
+        if args.tier == "thorough":
+            from . import thorough
+            thorough.extend(program, res, prop, index.REPO)
         return report.finish(res, args.tier, t0, mod.EXPLANATION)
     except index.AnalysisError as e:
         print(f"ANALYSIS-ERROR property={prop}: {e}")
